@@ -72,7 +72,14 @@ PROP = {
         "Sonic.Props.C03.C03_poller_pending_writers",
     ],
     "runs": LOOP_RUNS,
-    "keys": ["pending-differs-from-ledger", "posted-differs-from-ledger", "poll-*", "ledger-pending-differs-from-operations-in-flight"],
+    # cancel-left-operation-in-flight: after Cancel returned nothing of that object is in flight for the application, yet the
+    # operation is still counted by Pending() (and RunPending waits for it): "counting nothing that ... was cancelled"
+    "keys": ["pending-differs-from-ledger", "posted-differs-from-ledger", "poll-*", "ledger-pending-differs-from-operations-in-flight",
+             "cancel-left-operation-in-flight"],
+    "secondary_keys": ["cancel-left-operation-in-flight", "pending-differs-from-ledger", "poll-run-did-not-return",
+                       "poll-runpending-returned-with-operations-in-flight"],
+    # RunPending against posts from other goroutines with one more operation in flight (part of the `post` direct monitor of C05)
+    "direct": [{"component": "post", "args": ["only=runpending"], "keys": ["post.runpending-*"], "timeout": 600}],
     "rule": LOOP_RULE,
     "trusted_base": LOOP_TB + POLLER_TB,
     "assumptions": [
